@@ -24,7 +24,11 @@ def f32to64 (b : Nat) : Nat :=
   let e := (b / 2 ^ 23) % 256
   let m := b % 2 ^ 23
   if e = 255 then
-    if m = 0 then sign * 2 ^ 63 + 2047 * 2 ^ 52 else 2047 * 2 ^ 52 + 2 ^ 51   -- infinity / canonical NaN
+    if m = 0 then sign * 2 ^ 63 + 2047 * 2 ^ 52   -- infinity
+    else
+      -- NaN: the conversion keeps sign and payload and sets the quiet bit (CVTSS2SD)
+      let frac := m * 2 ^ 29
+      sign * 2 ^ 63 + 2047 * 2 ^ 52 + (if (frac / 2 ^ 51) % 2 = 1 then frac else frac + 2 ^ 51)
   else if e = 0 then
     if m = 0 then sign * 2 ^ 63
     else
@@ -43,13 +47,16 @@ partial def vtext : Value → String
   | .bool false => "f"
   | .int i => s!"i{i}"
   | .f32 b => "D" ++ toHex (beBytes 8 (f32to64 b))
-  | .f64 b => if isNaN64 b then "D" ++ toHex (beBytes 8 (2047 * 2 ^ 52 + 2 ^ 51)) else "D" ++ toHex (beBytes 8 b)
+  | .f64 b => "D" ++ toHex (beBytes 8 b)
   | .str s => "s" ++ toHex s
   | .bin s => "b" ++ toHex s
   | .arr vs => vs.foldl (fun acc v => acc ++ " " ++ vtext v) s!"a{vs.length}"
   | .map kvs =>
     let ents := kvs.foldl (fun acc (k, v) => insertEntry (vtext k, vtext v) acc) []
-    ents.foldl (fun acc (k, v) => acc ++ " " ++ k ++ " " ++ v) s!"m{ents.length}"
+    -- a map that repeats a key is outside the compared fragment: go-codec decodes the second value INTO the first
+    -- one (same key, same Go value), which fails when their kinds differ; no Go encoder produces such a map
+    let hd := if ents.length < kvs.length then "unsupported-duplicate-keys m" else "m"
+    ents.foldl (fun acc (k, v) => acc ++ " " ++ k ++ " " ++ v) s!"{hd}{ents.length}"
   | .ext t d => s!"x{t}:" ++ toHex d
 
 def tagsText : Option Tags → String
